@@ -22,8 +22,9 @@ class App:
         self.op, self.params, self.inp, self.out, self.n = op, params, inp, out, n
 
 
-def entails_ax(ex, c, extra=()):
-    """pc |= c, with the special-function axioms instantiated on the terms of c"""
+def entails_ax(ex, c, extra=(), tri=False):
+    """pc |= c, with the special-function axioms instantiated on the terms of c.
+    tri=False: python bool (unknown counts as False).  tri=True: True / False / None (unknown)."""
     if isinstance(c, bool):
         return c
     c = z3.simplify(c)
@@ -31,15 +32,47 @@ def entails_ax(ex, c, extra=()):
         return True
     if z3.is_false(c):
         return False
+    neg = z3.Not(c)
+    lem = axioms.instantiate([neg] + list(extra))
+    # 1. pure-arithmetic abstraction (all function applications replaced by constants): complete for real arithmetic, fast
+    hyps = [h for h in ex.pc if isz(h)]
+    try:
+        terms, amap = axioms.abstract_all(hyps + list(extra) + lem + [neg], want_map=True)
+        s = z3.Solver()
+        s.set('timeout', ex.timeout_ms)
+        s.add(*terms)
+        ex.solver_calls += 1
+        s.set('timeout', min(ex.timeout_ms, 3000))
+        s.set('arith.solver', 2)          # legacy arithmetic: decisive on these non-linear real queries
+        r0 = s.check()
+        if r0 == z3.unsat:
+            return True
+        if r0 == z3.sat and axioms.model_respects_congruence(s.model(), amap):
+            return False          # the arithmetic model extends to a model with functions: genuinely not entailed
+    except z3.Z3Exception:
+        pass
+    # 2. the query itself (keeps congruence); a model here is a genuine refutation
     s = z3.Solver()
     s.set('timeout', ex.timeout_ms)
     s.add(*ex.pc)
     s.add(*extra)
-    neg = z3.Not(c)
-    s.add(*axioms.instantiate([neg] + list(extra)))
+    s.add(*lem)
     s.add(neg)
     ex.solver_calls += 1
-    return s.check() == z3.unsat
+    s.set('timeout', min(ex.timeout_ms, 3000))
+    s.set('arith.solver', 2)
+    r = s.check()
+    if r == z3.unsat:
+        return True
+    if r == z3.sat:
+        return False
+    from .vc import run_external
+    r1, _, _ = run_external(s.to_smt2(), 5)
+    if r1 == 'unsat':
+        return True
+    if r1 == 'sat':
+        return False
+    return None if tri else False
 
 
 def params_equal(ex, p, q):
@@ -60,19 +93,44 @@ def params_equal(ex, p, q):
 
 
 def arrays_equal(ex, a, b):
-    """provable extensional equality of two 1-D arrays"""
+    """provable extensional equality of two 1-D arrays.  When the solver cannot decide, the arrays are treated as different and
+    the path is marked: a later counter-model on this path is then not reported as a violation unless replayed."""
     if a.ndim != 1 or b.ndim != 1:
         return False
     if not ex.entails(tobool(s_eq(a.shape[0], b.shape[0]))):
         return False
     j = ex.newvar('jx', 'int')
     try:
-        e = s_eq(a.elem((j,)), b.elem((j,)))
+        va, vb = a.elem((j,)), b.elem((j,))
+        e = s_eq(va, vb)
     except (Unsupported, SymRaise):
         return False
     if isinstance(e, bool):
         return e
-    return entails_ax(ex, z3.Implies(z3.And(j >= 0, j < tonum(a.shape[0])), e))
+    # cheap decisive filter: a concrete interpretation (real special functions) satisfying the path condition under which the
+    # elements differ clearly shows that the arrays are not provably equal
+    try:
+        from . import numeval
+        comps = lambda v: [toreal(v.re), toreal(v.im)] if isinstance(v, Cx) else [toreal(v)]
+        ca, cb = comps(va if isinstance(va, Cx) or not isinstance(vb, Cx) else Cx(va, 0)), comps(vb if isinstance(vb, Cx) or not isinstance(va, Cx) else Cx(vb, 0))
+        if numeval.clearly_different(ex.pc, ca, cb, guard=z3.And(j >= 0, j < tonum(a.shape[0]))):
+            return False
+    except (Unsupported, z3.Z3Exception):
+        pass
+    r = entails_ax(ex, z3.Implies(z3.And(j >= 0, j < tonum(a.shape[0])), e), tri=True)
+    if r is None:
+        mark_incomplete(ex)
+        return False
+    return r
+
+
+INCOMPLETE = z3.Bool('identification_incomplete!')
+
+
+def mark_incomplete(ex):
+    if not ex.__dict__.get('_incomplete'):
+        ex._incomplete = True
+        ex.assume(INCOMPLETE)
 
 
 def _apps(ex):
@@ -164,10 +222,10 @@ def _abs2(v):
     return s_mul(v, v)
 
 
-def parseval_facts(ex):
-    """Parseval for every registered fft / ifft application:  sum|fft x|^2 = n sum|x|^2,  n sum|ifft y|^2 = sum|y|^2"""
+def parseval_facts(ex, apps=None):
+    """Parseval for the given (default: every registered) fft / ifft applications:  sum|fft x|^2 = n sum|x|^2,  n sum|ifft y|^2 = sum|y|^2"""
     out = []
-    for a in list(_apps(ex)):
+    for a in list(_apps(ex) if apps is None else apps):
         if a.op == 'fft':
             out.append(toreal(sumsq(ex, a.out)) == toreal(a.n) * toreal(sumsq(ex, a.inp)))
         elif a.op == 'ifft':
@@ -201,3 +259,15 @@ def linear_fact(ex, app_sum, terms):
         e = s_eq(app_sum.out.elem((i,)), comb)
         return z3.BoolVal(e) if isinstance(e, bool) else e
     return fact
+
+
+def chain_apps(ex, out_arr, in_arr):
+    """the ifft application producing out_arr and the fft application consuming in_arr (for energy arguments)"""
+    a_out = find_app(ex, out_arr)
+    snap = Arr(in_arr.shape, in_arr.elem, in_arr.kind)
+    a_in = None
+    for a in _apps(ex):
+        if a.op == 'fft' and arrays_equal(ex, a.inp, snap):
+            a_in = a
+            break
+    return a_out, a_in
